@@ -40,6 +40,9 @@ type Svc struct {
 	GoNames      []string // Go method names in interface order
 	ErrorTypes   map[string]any
 	NewViewed    map[string]any // result type name -> NewViewedX func (unused for now)
+	// UnionTypes are the Go types of gen/<svc> that implement a union marker method (alternatives of OneOf
+	// attributes): the value builder picks the alternative's type among them (union.go)
+	UnionTypes []reflect.Type
 }
 
 // Design is the registry of one generated design.
